@@ -7,6 +7,15 @@ HERE = os.path.dirname(os.path.abspath(__file__))
 
 # property -> (technique, level text, level note, design ref)
 CLAIMED = {
+    'C16': ('scope-rule tables: registry coverage of scope-introducing node kinds; symbolic attribute-path extraction of what '
+            'each scope helper pushes (both direction arms) compared with a language-reference oracle; binder '
+            'exhaustiveness of scope_symbols() against the identifier fields of the grammar',
+            'Static: decides that the scope walk excludes / includes exactly the sub-expressions Python assigns to the '
+            'enclosing scope for functions, classes, lambdas and comprehensions, and that every name-binding identifier '
+            'field of the grammar is reported by scope_symbols(). Behaviour of the generator composition on concrete '
+            'programs (e.g. the documented first-iterable disagreement) is not decided.',
+            'Trusts the frozen scoping oracle (language reference 4.2.2/6.2.4/8.7, PEP 572, PEP 695) in sa/rules/c16.py.',
+            'DESIGN.md §2 C16'),
     'C09': ('exhaustive decision table: statically evaluated _Precedence / _PRECEDENCE_NODES / _PRECEDENCE_NODE_FIELDS and the '
             'special-case arms of precedence_require_parens_by_type against a grammar-derived oracle (python.gram 3.12); '
             'call-graph reachability of the tables from every expression put handler; control-dependence check of '
@@ -48,7 +57,7 @@ NOT_APPLICABLE = {
            'conservation is value-level. Its two structural clauses are checked as R5.1 and R7.3.',
 }
 
-PLANNED = ['C01', 'C02', 'C04', 'C05', 'C06', 'C07', 'C10', 'C11', 'C12', 'C15', 'C16', 'C17', 'C18', 'C20']
+PLANNED = ['C01', 'C02', 'C04', 'C05', 'C06', 'C07', 'C10', 'C11', 'C12', 'C15', 'C17', 'C18', 'C20']
 
 
 def main():
